@@ -34,7 +34,7 @@ from pybrops.opt.algo.NSGA3SubsetGeneticAlgorithm import NSGA3SubsetGeneticAlgor
 from pybrops.opt.algo import NSGA2MemeticSubsetGeneticAlgorithm as MEM
 
 PROP = "C06"
-RUNS = {"quick": 8000, "thorough": 250000}
+RUNS = {"quick": 12000, "thorough": 250000}
 WALL = {"quick": 240, "thorough": 2400}
 RUN_TIMEOUT = 120
 RULE = ("scenario = optimiser class (17), problem (EBV family; encoding subset/real/integer/binary; 3-10 candidates, candidate set in index order or shuffled / partial (given at construction or through the setter), bounds of real/integer problems optionally re-set through the setters; subset size 1..n; 1 or 2 "
